@@ -43,6 +43,9 @@ struct Script {
     /// if non-zero, only the first `lazy_calls` calls of a thread allocate
     /// (lazy initialisation: later samples do not touch the allocator)
     lazy_calls: u64,
+    /// the benchmarked function only reallocates a pre-allocated block to its own size
+    /// (an allocator operation that moves 0 bytes)
+    zero_realloc: bool,
     threads: u64,
 }
 
@@ -63,6 +66,7 @@ static SCRIPT: std::sync::Mutex<Script> = std::sync::Mutex::new(Script {
     skew_gen: 0,
     skew_call: 0,
     lazy_calls: 0,
+    zero_realloc: false,
     threads: 1,
 });
 fn script() -> Script {
@@ -75,6 +79,20 @@ const Z: AtomicU64 = AtomicU64::new(0);
 static NEXT_ID: [AtomicU64; vclock::MAX_THREADS] = [Z; vclock::MAX_THREADS];
 static NEXT_CALL: [AtomicU64; vclock::MAX_THREADS] = [Z; vclock::MAX_THREADS];
 static PANICS: AtomicI64 = AtomicI64::new(0);
+
+/// One pre-allocated block per thread for the same-size reallocations (allocated outside any sample).
+#[allow(clippy::declare_interior_mutable_const)]
+const NULLP: std::sync::atomic::AtomicPtr<u8> = std::sync::atomic::AtomicPtr::new(std::ptr::null_mut());
+static BLOCKS: [std::sync::atomic::AtomicPtr<u8>; vclock::MAX_THREADS] = [NULLP; vclock::MAX_THREADS];
+
+fn prepare_blocks() {
+    for b in BLOCKS.iter() {
+        if b.load(SeqCst).is_null() {
+            let p = unsafe { std::alloc::alloc(std::alloc::Layout::from_size_align(32, 1).unwrap()) };
+            b.store(p, SeqCst);
+        }
+    }
+}
 
 fn churn(n: u64, size: u64) {
     // `n` times: allocate, grow to twice the size, free (through the global
@@ -170,18 +188,88 @@ fn call<O: Val>(input_id: u64) -> O {
         PANICS.fetch_add(1, SeqCst);
         panic!("scripted panic");
     }
-    if s.lazy_calls == 0 || j < s.lazy_calls {
+    if s.zero_realloc {
+        unsafe {
+            let l = std::alloc::Layout::from_size_align(32, 1).unwrap();
+            let p = BLOCKS[t].load(SeqCst);
+            let p = std::hint::black_box(std::alloc::realloc(p, l, 32));
+            BLOCKS[t].store(p, SeqCst);
+        }
+    } else if s.lazy_calls == 0 || j < s.lazy_calls {
         churn(s.call_allocs, s.alloc_size + j);
     }
     vclock::advance(s.call_cost + s.call_slope * j + (s.threads - 1 - (t as u64).min(s.threads - 1)) * s.skew_call);
     O::make(input_id)
 }
 
-fn run_ep<I: Val, O: Val>(ep: &str, counter: bool, b: Bencher) {
+fn run_ep<I: Val, O: Val>(ep: &str, counter: u8, b: Bencher) {
     let count = |v: &I| {
         vclock::log(EV_COUNT, v.id(), 0);
         divan::counter::ItemsCount::new(3 + v.id() % 5)
     };
+    // a second input counter, of another kind (bytes come before items in divan's own order)
+    let count_b = |v: &I| {
+        vclock::log(EV_COUNT, v.id(), 1);
+        divan::counter::BytesCount::new(7 + v.id() % 3)
+    };
+    if counter == 2 {
+        match ep {
+            "values" => {
+                return b.with_inputs(make_input::<I>).input_counter(count_b).input_counter(count).bench_values(|i: I| {
+                    let id = i.id();
+                    std::mem::forget(i);
+                    call::<O>(id)
+                })
+            }
+            "refs" => {
+                return b.with_inputs(make_input::<I>).input_counter(count_b).input_counter(count).bench_refs(|i: &mut I| call::<O>(i.id()))
+            }
+            "local_values" => {
+                return b.with_inputs(make_input::<I>).input_counter(count_b).input_counter(count).bench_local_values(|i: I| {
+                    let id = i.id();
+                    std::mem::forget(i);
+                    call::<O>(id)
+                })
+            }
+            "local_refs" => {
+                return b
+                    .with_inputs(make_input::<I>)
+                    .input_counter(count_b)
+                    .input_counter(count)
+                    .bench_local_refs(|i: &mut I| call::<O>(i.id()))
+            }
+            _ => {}
+        }
+    }
+    // `count_inputs_as::<C>()`: integer inputs counted by conversion (no closure, so no count event);
+    // ic = 3, 4, 5, 6 ask for bytes, chars, cycles, items. The input is its own id.
+    if counter >= 3 {
+        fn gen_u() -> u64 {
+            make_input::<SN>().0
+        }
+        macro_rules! cia {
+            ($c:ty) => {
+                match ep {
+                    "values" => return b.with_inputs(gen_u).count_inputs_as::<$c>().bench_values(|v: u64| call::<O>(v)),
+                    "refs" => return b.with_inputs(gen_u).count_inputs_as::<$c>().bench_refs(|v: &mut u64| call::<O>(*v)),
+                    "local_values" => {
+                        return b.with_inputs(gen_u).count_inputs_as::<$c>().bench_local_values(|v: u64| call::<O>(v))
+                    }
+                    "local_refs" => {
+                        return b.with_inputs(gen_u).count_inputs_as::<$c>().bench_local_refs(|v: &mut u64| call::<O>(*v))
+                    }
+                    _ => {}
+                }
+            };
+        }
+        match counter {
+            3 => cia!(divan::counter::BytesCount),
+            4 => cia!(divan::counter::CharsCount),
+            5 => cia!(divan::counter::CyclesCount),
+            _ => cia!(divan::counter::ItemsCount),
+        }
+    }
+    let counter = counter != 0;
     match (ep, counter) {
         ("bench", _) => b.bench(|| call::<O>(0)),
         ("bench_local", _) => b.bench_local(|| call::<O>(0)),
@@ -219,7 +307,7 @@ fn run_ep<I: Val, O: Val>(ep: &str, counter: bool, b: Bencher) {
     }
 }
 
-fn dispatch(ep: &str, i: &str, o: &str, counter: bool, b: Bencher) {
+fn dispatch(ep: &str, i: &str, o: &str, counter: u8, b: Bencher) {
     macro_rules! go {
         ($($it:ident $in:literal),* ; $($ot:ident $on:literal),*) => {
             go!(@outer [$($it $in),*] [$($ot $on),*])
@@ -285,6 +373,9 @@ pub fn exec(toks: &[&str]) -> String {
         _ => (-1, -1),
     };
     let skew: Vec<u64> = get("skew").unwrap_or("0,0").split(',').map(|x| x.parse().unwrap()).collect();
+    if get("zre") == Some("1") {
+        prepare_blocks();
+    }
     let ep_is_local = get("ep").unwrap_or("bench").contains("local");
     *SCRIPT.lock().unwrap_or_else(|e| e.into_inner()) = Script {
         gen_cost: costs[0],
@@ -303,6 +394,7 @@ pub fn exec(toks: &[&str]) -> String {
         skew_gen: skew[0],
         skew_call: skew[1],
         lazy_calls: get("lazy").and_then(|v| v.parse().ok()).unwrap_or(0),
+        zero_realloc: get("zre") == Some("1"),
         threads: if ep_is_local { 1 } else { threads as u64 },
     };
     for t in 0..vclock::MAX_THREADS {
@@ -315,7 +407,7 @@ pub fn exec(toks: &[&str]) -> String {
 
     let ep = get("ep").unwrap_or("bench").to_string();
     let (i, o) = (get("in").unwrap_or("zn").to_string(), get("out").unwrap_or("zn").to_string());
-    let counter = get("ic") == Some("1");
+    let counter: u8 = get("ic").and_then(|v| v.parse().ok()).unwrap_or(0);
 
     // Watchdog: a run that does not return is reported, then the process ends
     // (the remaining requests of this invocation are lost).
@@ -356,7 +448,7 @@ pub fn exec(toks: &[&str]) -> String {
             vclock::EV_TS_START => format!("s{}", e.b),
             vclock::EV_TS_END => format!("e{}", e.b),
             EV_GEN => format!("g{}", e.a),
-            EV_COUNT => format!("c{}", e.a),
+            EV_COUNT => format!("{}{}", if e.b == 1 { 'b' } else { 'c' }, e.a),
             EV_CALL => format!("k{}", e.a),
             EV_DROP_OUT => format!("o{}", e.a),
             EV_DROP_IN => format!("i{}", e.a),
@@ -508,19 +600,31 @@ pub fn gen(rng: &mut Rng, n: usize, prec: u64) -> Vec<String> {
         } else {
             mint
         };
-        let ic = ep != "bench" && ep != "bench_local" && rng.chance(1, 3);
+        let ic: u8 = if ep != "bench" && ep != "bench_local" && rng.chance(1, 3) {
+            if rng.chance(1, 4) { 3 + rng.below(4) as u8 } else { 1 + rng.chance(1, 3) as u8 }
+        } else {
+            0
+        };
         let items = if rng.chance(1, 4) { (1 + rng.below(100)).to_string() } else { "-".into() };
+        // counted by conversion: the inputs are plain integers, and no other counter is set
+        let items = if ic >= 3 { "-".to_string() } else { items };
         let panic = if rng.chance(1, 8) { format!("{}:{}", rng.below(t as u64), rng.below(12)) } else { "-".into() };
         let has_inputs = ep != "bench" && ep != "bench_local";
         let gpanic = if has_inputs && panic == "-" && rng.chance(1, 10) { format!("{}:{}", rng.below(t as u64), rng.below(12)) } else { "-".into() };
         let skew = if t > 1 && rng.chance(1, 2) { format!("{},{}", rng.below(40) * scale, rng.below(40) * scale) } else { "0,0".into() };
         // lazy initialisation: only the first few calls of each thread allocate
-        let lazy = if allocs[1] > 0 && rng.chance(1, 3) { format!(" lazy={}", [1u64, 1, 2, 3, 5, 9][rng.below(6) as usize]) } else { String::new() };
+        let lazy = if allocs[1] > 0 && rng.chance(1, 3) {
+            format!(" lazy={}", [1u64, 1, 2, 3, 5, 9][rng.below(6) as usize])
+        } else if allocs[1] == 0 && rng.chance(1, 6) {
+            " zre=1".to_string()
+        } else {
+            String::new()
+        };
         out.push(format!(
             "bench prec={prec} ep={ep} in={} out={} mode={mode} T={t} sc={sc} ss={ss} maxt={maxt} mint={mint} sk={sk} ic={} items={items} cost={} alloc={} panic={panic} gpanic={gpanic} skew={skew}{lazy}",
+            { let sh = SHAPES[rng.below(4) as usize]; if ic >= 3 { "sn" } else { sh } },
             SHAPES[rng.below(4) as usize],
-            SHAPES[rng.below(4) as usize],
-            ic as u8,
+            ic,
             costs.iter().map(|c| c.to_string()).collect::<Vec<_>>().join(","),
             allocs.iter().map(|c| c.to_string()).collect::<Vec<_>>().join(","),
         ));
